@@ -28,6 +28,6 @@ Before delivering a change, verify ALL of the following yourself in the worktree
   3. without the change (git stash / checkout): your demonstration passes.
 Keep the worktree clean between changes (`git -C /tmp/wt2-{pid} checkout -- . && git -C /tmp/wt2-{pid} clean -fd tests src`), so each patch.diff contains one change only. Do not commit anything.
 
-To limit load on the shared machine use at most 4 parallel jobs (`cargo test -j 4`, `--test-threads 4`). IMPORTANT build note: a cold build of the workspace compiles RocksDB (30+ min). A pre-built dependency cache is provided: run every cargo command with the environment variable CARGO_TARGET_DIR=/tmp/tg2-{pid} (already seeded; only redb itself is rebuilt, ~1 min). Budget: stop after about 75 minutes of work or two accepted changes, whichever comes first; deliver what you have (even one good change is useful). Do not delete /tmp/tg2-{pid}; it is removed for you afterwards.
+To limit load on the shared machine use at most 4 parallel jobs (`cargo test -j 4`, `--test-threads 4`). IMPORTANT build note: a cold build of the workspace compiles RocksDB (30+ min). A pre-built dependency cache is provided: run every cargo command with the environment variable CARGO_TARGET_DIR=/tmp/tg2-{pid} (already seeded; only redb itself is rebuilt, ~1 min). If cargo nevertheless starts compiling librocksdb-sys (needed only by the benchmark crates), stop it and run the suite as `cargo nextest run --offline -j 4 --no-fail-fast -p redb -p redb-derive --features redb/experimental_cursor` (or the `cargo test` equivalent) instead, and say so in notes.md; the full workspace suite is re-run on your change afterwards by someone else. Budget: stop after about 75 minutes of work or two accepted changes, whichever comes first; deliver what you have (even one good change is useful). Do not delete /tmp/tg2-{pid}; it is removed for you afterwards.
 
 Final answer: a short list of the delivered changes (path, one line each: what was changed and what it needs to manifest).""")
